@@ -5,6 +5,7 @@
    lists and custom types given by their own codec (version: C03, dependency and architecture: C05). *)
 From Coq Require Import List Ascii String Bool Arith NArith ZArith Lia.
 Require Import GS V3 V4 L10 L11 R2 R3 PU C9 C9G C9I C9T CX C9C C9U.
+Require C9F.
 Import ListNotations.
 
 (* every value kind round-trips: string, int, uint, bool *)
@@ -40,6 +41,43 @@ Theorem C09_record_roundtrip_library_types : forall (sch : xschema) r,
     (C9G.values (C9G.convert xkind (xvalue cust) (xmarshal cust cenc) sch r {| C9G.order := []; C9G.values := [] |})) = Some r.
 Proof. exact C09_roundtrip_with_library_types. Qed.
 Print Assumptions C09_record_roundtrip_library_types.
+
+(* the decoder and the encoder the code runs have the field-name layer C9F in front of them (names are looked up exactly, or
+   else in another letter case; a field of the embedded paragraph that the struct knows under another spelling is written
+   under the struct's name): for any family of value codecs with a round trip, and a struct no two fields of which differ in
+   case only, what Marshal writes reads back through THAT decoder to the record *)
+Theorem C09_record_roundtrip_through_the_field_name_layer :
+  forall (kind value : Type) (kind_of : value -> kind) (zero_of : kind -> value) (marshal_value : value -> GS.str)
+         (decode_value : kind -> GS.str -> option value) (wfv : value -> Prop),
+  (forall v, wfv v -> marshal_value v <> [] -> decode_value (kind_of v) (marshal_value v) = Some v) ->
+  (forall v, wfv v -> marshal_value v = [] -> v = zero_of (kind_of v)) ->
+  forall sch r, C9G.typed kind value kind_of marshal_value decode_value wfv sch r -> C9G.keys_distinct kind sch ->
+  C9F.keys_fold_distinct kind sch ->
+  C9F.decode_fold kind value zero_of decode_value sch
+    (C9G.values (C9F.convert_fold kind value marshal_value sch r {| C9G.order := []; C9G.values := [] |})) = Some r.
+Proof. exact C9F.roundtrip_fold. Qed.
+(* on paragraphs spelled as the struct spells its fields the layer is not there: every theorem of this file about
+   C9G.decode / C9G.convert is then a theorem about the code *)
+Theorem C09_field_name_layer_is_transparent_on_spelled_paragraphs :
+  (forall sch p, C9F.spelled fd (gschema sch) p ->
+     C9F.decode_fold fd cval CX.czero cdecode (gschema sch) p = C9G.decode fd cval CX.czero cdecode (gschema sch) p) /\
+  (forall sch r found, NoDup (C9G.order found) ->
+     C9F.no_respelling (map (C9G.fkey fd) (gschema sch)) (C9G.order found) ->
+     C9F.no_respelling (map (C9G.fkey fd) (gschema sch)) (map fst (C9G.values found)) ->
+     C9F.convert_fold fd cval cmarshal (gschema sch) r found = C9G.convert fd cval cmarshal (gschema sch) r found).
+Proof.
+  split.
+  - intros sch. exact (C9F.decode_fold_spelled fd cval CX.czero cdecode (gschema sch)).
+  - intros sch. exact (C9F.convert_fold_spelled fd cval cmarshal (gschema sch)).
+Qed.
+(* a field that is no field of the struct in ANY letter case does not reach it, wherever it stands *)
+Theorem C09_field_unknown_in_any_letter_case_does_not_reach_the_struct : forall sch k v pre post,
+  (forall f, In f (gschema sch) -> C9F.feq k (C9G.fkey fd f) = false) ->
+  C9F.decode_fold fd cval CX.czero cdecode (gschema sch) (pre ++ (k, v) :: post) =
+  C9F.decode_fold fd cval CX.czero cdecode (gschema sch) (pre ++ post).
+Proof. intros sch. exact (C9F.decode_fold_ignores_unknown_field fd cval CX.czero cdecode (gschema sch)). Qed.
+Print Assumptions C09_record_roundtrip_through_the_field_name_layer.
+Print Assumptions C09_field_name_layer_is_transparent_on_spelled_paragraphs.
 
 (* through the text: Marshal -> WriteTo -> reader -> decode gives the record back (scalar kinds; values that
    are single trimmed lines, which integers, unsigned integers and booleans always are) *)
